@@ -851,6 +851,16 @@ func (env *Env) call(x *CCall) Val {
 			ref = "(i_val " + v.E + ")"
 		}
 		return Val{E: fmt.Sprintf("(and (>= %s %s) (< %s %s))", ref, em.heapGet(env.old, "top", sInt), ref, em.heapGet(env.st, "top", sInt)), S: sBool, T: types.Typ[types.Bool]}
+	case "samearray":
+		// samearray(a, b): the slices a and b have the same backing array
+		if len(x.Args) != 2 {
+			env.fail("samearray(a, b)")
+		}
+		sa, sb := env.eval(x.Args[0]), env.eval(x.Args[1])
+		if sa.S != sSlice || sb.S != sSlice {
+			env.fail("samearray() of non-slices")
+		}
+		return Val{E: fmt.Sprintf("(= (s_arr %s) (s_arr %s))", sa.E, sb.E), S: sBool, T: types.Typ[types.Bool]}
 	case "disjoint":
 		// disjoint(a, b): the slices a and b share no backing array (or one of them has none)
 		if len(x.Args) != 2 {
